@@ -92,6 +92,20 @@ pub trait Lend {
     }
 }
 
+/// by-value receivers: the instance itself travels through the delegation machinery
+#[unimock(api=EndMock)]
+pub trait End: Sized {
+    fn end_req(self, x: u8) -> u32;
+    fn end_default(self, x: u8) -> u32 {
+        self.end_req(x) + 1
+    }
+}
+
+/// registry of the running case and the drop counts seen by the answer of `end_req` (i.e. while the instance
+/// is alive inside the by-value provided method)
+static END_REG: Mutex<Option<Arc<Registry>>> = Mutex::new(None);
+static END_SNAPSHOT: Mutex<Option<Vec<u32>>> = Mutex::new(None);
+
 #[derive(Clone, Copy, Debug, PartialEq, Eq, Hash, Serialize, Deserialize)]
 pub enum RefOp {
     /// make_ref of a Tracked / Tracked2 / u32 / String on instance .0
@@ -426,7 +440,14 @@ fn setup(reg: &Arc<Registry>) -> (impl Clause, Vec<u32>) {
     let lend_mut = LendMock::lend_mut
         .each_call(&|m| m.func(|_, _| true))
         .answers_arc(mut_answer(move |u: &mut Unimock, x: u8| u.make_mut(Tracked::new(&reg3, 8000 + x as u32))));
-    ((answered, r0, r1, r2, r3, lend_mut), shared)
+    let end = EndMock::end_req.each_call(&|m| m.func(|_, _| true)).answers(&|_, x| {
+        if let Some(reg) = END_REG.lock().unwrap().as_ref() {
+            let n = reg.len();
+            *END_SNAPSHOT.lock().unwrap() = Some((0..n as u32).map(|id| reg.dropped(id)).collect());
+        }
+        x as u32
+    });
+    (((answered, r0, r1, r2, r3, lend_mut), end), shared)
 }
 
 #[derive(Serialize, Deserialize, Debug)]
@@ -623,6 +644,29 @@ fn execute_on(
             2 => catch(move || {
                 let _code = std::process::Termination::report(o);
             }),
+            3 => {
+                // the original is consumed by a provided by-value method whose body hands it on to a required
+                // by-value method: while that runs, everything the instance lent is still owned by it
+                *END_REG.lock().unwrap() = Some(reg.clone());
+                *END_SNAPSHOT.lock().unwrap() = None;
+                let r = catch(move || {
+                    let _ = o.end_default(1);
+                });
+                *END_REG.lock().unwrap() = None;
+                match END_SNAPSHOT.lock().unwrap().take() {
+                    None => return Err("HARNESS: the answer of end_req did not run".to_string()),
+                    Some(snapshot) => {
+                        for id in book.owned[0].iter().chain(book.owned_helper[0].iter()) {
+                            if snapshot.get(*id as usize).copied().unwrap_or(0) != 0 {
+                                return Err(format!(
+                                    "value {id} lent by the original was released while the instance was still alive inside a by-value provided method (before its verification)"
+                                ));
+                            }
+                        }
+                    }
+                }
+                r
+            }
             _ => catch(move || drop(o)),
         }
     };
@@ -643,7 +687,7 @@ fn execute_on(
     }
     let mut classes = vec![];
     if !case.teardown_by_unwinding {
-        classes.push(["original-dropped", "original-ended-by-verify()", "original-ended-by-report()"][case.finish.min(2) as usize].to_string());
+        classes.push(["original-dropped", "original-ended-by-verify()", "original-ended-by-report()", "original-consumed-by-a-by-value-provided-method"][case.finish.min(3) as usize].to_string());
     }
     if stats.make_mut > 0 {
         classes.push("make_mut-phase".to_string());
@@ -771,7 +815,7 @@ pub fn case_strategy(max_threads: u8, max_per_thread: u16) -> impl Strategy<Valu
         1..=max_per_thread,
         any::<bool>(),
         proptest::bool::weighted(0.3),
-        0..3u8,
+        0..4u8,
     )
         .prop_map(|(clones, phases, threads, per_thread, small_stack, teardown_by_unwinding, finish)| ChainCase {
             clones,
@@ -813,7 +857,7 @@ pub fn deep_cases() -> Vec<ChainCase> {
     out
 }
 
-pub const RULE: &str = "cases = 1-4 phases of up to 12 lending operations (make_ref of Tracked / a second tracked type / u32 / String, calls answered by an answer function using make_ref, calls answered by a returns()-configured borrowed value, calls through a default body running on the delegation helper, bursts of 64-256 values) spread over the original and up to 3 clones, each phase optionally closed by make_mut / a make_mut-answered &mut return, then optionally 2-8 threads lending concurrently through a shared &Unimock, then teardown (optionally on a 192 KiB stack; the original ends by drop, explicit verify() or report(), or by letting a user panic unwind through the scope that owns the instance). After every operation every reference obtained so far is re-read against a shadow copy and the drop registry is checked. deep = long chains (5k-51k values) and 2-8 threads x 2000 values. scheduled-lent-answers = every schedule (yield points at the value-chain cells, the delegator cell, counters and locks) of 2 threads x 1-2 make_ref-answered calls through one shared &Unimock (thorough: also 3x1, 2x3), sampled schedules for 2-4 threads x 2-3 calls; oracle: every call reads the value made for it, at the call and when the thread ends, at an address of its own. Non-trivial = >= 3 consecutive held values of the same type on one instance re-read after later pushes in a phase of >= 4 operations; distinct = distinct case";
+pub const RULE: &str = "cases = 1-4 phases of up to 12 lending operations (make_ref of Tracked / a second tracked type / u32 / String, calls answered by an answer function using make_ref, calls answered by a returns()-configured borrowed value, calls through a default body running on the delegation helper, bursts of 64-256 values) spread over the original and up to 3 clones, each phase optionally closed by make_mut / a make_mut-answered &mut return, then optionally 2-8 threads lending concurrently through a shared &Unimock, then teardown (optionally on a 192 KiB stack; the original ends by drop, explicit verify(), report() or by being consumed by a by-value provided method (everything it lent must still be alive inside that call), or by letting a user panic unwind through the scope that owns the instance). After every operation every reference obtained so far is re-read against a shadow copy and the drop registry is checked. deep = long chains (5k-51k values) and 2-8 threads x 2000 values. scheduled-lent-answers = every schedule (yield points at the value-chain cells, the delegator cell, counters and locks) of 2 threads x 1-2 make_ref-answered calls through one shared &Unimock (thorough: also 3x1, 2x3), sampled schedules for 2-4 threads x 2-3 calls; oracle: every call reads the value made for it, at the call and when the thread ends, at an address of its own. Non-trivial = >= 3 consecutive held values of the same type on one instance re-read after later pushes in a phase of >= 4 operations; distinct = distinct case";
 
 pub fn run(ctx: &Ctx) -> Verdict {
     let mut v = Verdict::new("exploration", RULE);
